@@ -205,6 +205,18 @@ def seqRunW (cfg : Option WarnCfg) (nowOf : Nat → Nat) :
     | (some (v, wd), w') => some (v, wd) :: seqRunW cfg nowOf n v rest r w'
     | (none, w') => none :: seqRunW cfg nowOf n last rest r w'
 
+/-- `seqt` cases: the same calls under a PAUSED tokio clock (`tokio::time::Instant::now()` stands still; the generator
+uses tokio's `Instant`, timestamp_generator.rs:12): before call k the clock is advanced by `advs[k]` ns. Instants
+are ns since the generator was created (`last_warning` starts there: `WarnSt.lastWarnNs = 0`, `now = 0`). -/
+def seqRunT (cfg : Option WarnCfg) :
+    List Nat → Int → List (Option Nat) → Option Nat → WarnSt → Nat → List (Option (Int × Warned))
+  | [], _, _, _, _, _ => []
+  | a :: advs, last, script, lastEntry, w, now =>
+    let (r, rest) := readClock script lastEntry
+    match computeNextW cfg last (r.map microsAsI64) w (now + a) with
+    | (some (v, wd), w') => some (v, wd) :: seqRunT cfg advs v rest r w' (now + a)
+    | (none, w') => none :: seqRunT cfg advs last rest r w' (now + a)
+
 /-! ### the timestamp choice with the generator as a STATE (so that "not consulted" can be said) -/
 
 /-- `statement.get_timestamp().or_else(|| generator.next_timestamp())` with a stateful generator
@@ -222,5 +234,112 @@ def framesSt {σ : Type} (stmtTs : Option Int) (gen : Option (σ → Int × σ))
     List (Option Int) × σ :=
   let p := pickTimestampSt stmtTs gen s
   (List.replicate (resends + 1) p.1, p.2)
+
+/-! ### the statement-API layer, as far as the timestamp goes
+
+`StatementConfig.timestamp` (statement/mod.rs:36) and the setters / getters / constructors / copies of the three
+statement kinds through which a caller's timestamp reaches `*_with_consistency`: `Statement`
+(unprepared.rs:128-135), `PreparedStatement` (prepared.rs:524-531), `Batch` of every `BatchType`
+(batch.rs:38-74, 148-155). Everything else in the configuration is abstracted away. -/
+
+inductive BatchType where
+  | logged | unlogged | counter
+  deriving Repr, DecidableEq
+
+/-- `StatementConfig` (only the field C18 speaks about). `Default` = no timestamp. -/
+structure StmtCfg where
+  timestamp : Option Int := none
+  deriving Repr, DecidableEq
+
+structure StatementM where          -- `Statement`
+  cfg : StmtCfg := {}
+  deriving Repr, DecidableEq
+
+structure PreparedM where           -- `PreparedStatement` (a handle: shared data + its own config)
+  cfg : StmtCfg := {}
+  deriving Repr, DecidableEq
+
+inductive BatchStmtM where          -- `BatchStatement`
+  | query (s : StatementM)
+  | prepared (p : PreparedM)
+  deriving Repr, DecidableEq
+
+structure BatchM where              -- `Batch`
+  ty : BatchType := .logged
+  cfg : StmtCfg := {}
+  stmts : List BatchStmtM := []
+  deriving Repr, DecidableEq
+
+def StatementM.new : StatementM := {}
+def StatementM.setTimestamp (s : StatementM) (t : Option Int) : StatementM := { s with cfg := { s.cfg with timestamp := t } }
+def StatementM.getTimestamp (s : StatementM) : Option Int := s.cfg.timestamp
+
+def PreparedM.setTimestamp (p : PreparedM) (t : Option Int) : PreparedM := { p with cfg := { p.cfg with timestamp := t } }
+def PreparedM.getTimestamp (p : PreparedM) : Option Int := p.cfg.timestamp
+
+/-- `Connection::prepare(&statement)` (connection.rs: `PreparedStatement::new(.., statement.config.clone())`) and
+`Session::prepare`: the prepared statement inherits the statement's configuration. -/
+def StatementM.prepare (s : StatementM) : PreparedM := { cfg := s.cfg }
+
+/-- `UnconfiguredPreparedStatement::make_configured_handle(query.config, ..)` (prepared.rs:704-716): a CachingSession
+cache HIT (or miss) hands out a handle whose configuration is that of the CURRENT call's statement, whatever the
+statement that populated the cache carried. -/
+def cachedHandle (_cachedFrom : StatementM) (current : StatementM) : PreparedM := { cfg := current.cfg }
+
+def BatchM.new (ty : BatchType) : BatchM := { ty := ty }                                        -- batch.rs:38-43
+def BatchM.newWithStatements (ty : BatchType) (stmts : List BatchStmtM) : BatchM := { ty := ty, stmts := stmts }  -- 63-69
+/-- `Batch::new_from` (batch.rs:45-53): type and configuration of the given batch, no statements. -/
+def BatchM.newFrom (b : BatchM) : BatchM := { ty := b.ty, cfg := b.cfg }
+def BatchM.append (b : BatchM) (s : BatchStmtM) : BatchM := { b with stmts := b.stmts ++ [s] }
+def BatchM.setTimestamp (b : BatchM) (t : Option Int) : BatchM := { b with cfg := { b.cfg with timestamp := t } }  -- 148-150
+def BatchM.getTimestamp (b : BatchM) : Option Int := b.cfg.timestamp                                            -- 153-155
+
+/-- `Connection::prepare_batch` (connection.rs:1248-1290): when some unprepared statement has values (`needs`), a
+NEW batch is built with `Batch::new_from(init_batch)` and every statement appended again (the ones with values
+prepared with a FRESH `Statement::new(text)`, i.e. default configuration); otherwise the batch is used as it is. -/
+def connPrepareBatch (b : BatchM) (needs : BatchStmtM → Bool) : BatchM :=
+  if b.stmts.any needs then
+    b.stmts.foldl (fun acc st => acc.append (if needs st then .prepared (StatementM.prepare StatementM.new) else st)) b.newFrom
+  else b
+
+/-- `Session::prepare_batch` / `CachingSession::prepare_batch` (session.rs:1945-1963, caching_session.rs): a CLONE of
+the batch whose unprepared statements are replaced by prepared ones. -/
+def sessionPrepareBatch (b : BatchM) : BatchM :=
+  { b with stmts := b.stmts.map fun
+      | .query s => .prepared s.prepare
+      | st => st }
+
+/-- The BATCH frames of `batch_with_consistency(init_batch, ..)`: `prepare_batch`, then `batch.get_timestamp()
+.or_else(generator)` once, then the frames. -/
+def batchCallFrames (b : BatchM) (needs : BatchStmtM → Bool) (gen : Option (Unit → Int)) (resends : Nat) : List (Option Int) :=
+  batchFrames (connPrepareBatch b needs).getTimestamp gen resends
+
+/-- The EXECUTE frames of `Session::query_*` with values: `connection.prepare(statement)`, then
+`execute_raw_with_consistency(&prepared, ..)`. -/
+def queryWithValuesFrames (s : StatementM) (gen : Option (Unit → Int)) (unprepared : Bool) : List (Option Int) :=
+  executeFrames s.prepare.getTimestamp gen unprepared
+
+/-- One operation of the `api` cases on a `Statement` / `Batch` value. -/
+inductive ApiOp where
+  | set (t : Option Int)
+  | get
+  | clone           -- continue on the clone
+  | append          -- `append_statement` (Batch only; a no-op on a Statement)
+  deriving Repr, DecidableEq
+
+/-- runs the operations on a statement; the result is what the `get`s returned -/
+def apiRunStatement : StatementM → List ApiOp → List (Option Int)
+  | _, [] => []
+  | s, .set t :: rest => apiRunStatement (s.setTimestamp t) rest
+  | s, .get :: rest => s.getTimestamp :: apiRunStatement s rest
+  | s, .clone :: rest => apiRunStatement s rest
+  | s, .append :: rest => apiRunStatement s rest
+
+def apiRunBatch : BatchM → List ApiOp → List (Option Int)
+  | _, [] => []
+  | b, .set t :: rest => apiRunBatch (b.setTimestamp t) rest
+  | b, .get :: rest => b.getTimestamp :: apiRunBatch b rest
+  | b, .clone :: rest => apiRunBatch b rest
+  | b, .append :: rest => apiRunBatch (b.append (.query StatementM.new)) rest
 
 end ScyllaVerif.Timestamp
